@@ -24,7 +24,7 @@
 From Coq Require Import List NArith ZArith Bool SpecFloat String.
 Import ListNotations.
 Require Import MV.C08.Model.
-Require MV.C15.Model MV.C15.F64.
+Require MV.C15.Model.
 Open Scope N_scope.
 
 Module H := MV.C15.Model.
@@ -175,9 +175,19 @@ Definition mk_sample (name : str) (help : option str) (u : option unit_t) (ty : 
   {| a_fam := name ++ unit_suffix u; a_type := ty; a_help := help;
      a_name := name ++ unit_suffix u ++ type_suffix suffix; a_labels := labels; a_extra := x; a_val := v |}.
 
+(* IEEE-754 binary64 decoding of a bit pattern (same as C15/F64.v [sf_of_bits]; copied so that this
+   development does not load the primitive-float library) *)
+Definition sf_of_bits (z : Z) : spec_float :=
+  let s := Z.testbit z 63 in
+  let e := Z.land (Z.shiftr z 52) 2047 in
+  let m := Z.land z (2^52 - 1) in
+  if (e =? 0)%Z then (match m with Zpos p => S754_finite s p (-1074) | _ => S754_zero s end)
+  else if (e =? 2047)%Z then (if (m =? 0)%Z then S754_infinity s else S754_nan)
+  else match (m + 2^52)%Z with Zpos p => S754_finite s p (e - 1075) | _ => S754_nan end.
+
 (* a double given by its bit pattern, as the exact quarter-unit integer when it is one *)
 Definition canon (b : N) : sval :=
-  match MV.C15.F64.sf_of_bits (Z.of_N b) with
+  match sf_of_bits (Z.of_N b) with
   | S754_zero false => VZ 0
   | S754_finite s m e =>
       let e2 := (e + 2)%Z in
